@@ -313,6 +313,15 @@ class Ctx:
         if len(self.broken) < 50:
             self.broken.append(("correspondence " + name, detail))
 
+    def known_match(self, signature):
+        """Id of the known finding a failure signature matches, or None."""
+        sig = dict(signature or {})
+        sig.setdefault("property", self.pid)
+        for f in self.known.get("findings", []):
+            if f.get("property") == self.pid and all(sig.get(k) == v for k, v in f.get("match", {}).items()):
+                return f["id"]
+        return None
+
     def fail(self, what, replay, signature=None):
         """A concrete input on which the *property* fails against the real code."""
         sig = dict(signature or {})
